@@ -170,9 +170,14 @@ Qed.
 (* ------------------------------------------------------------------ index refinement invariant *)
 From Coq Require Import Btauto.
 
+Definition wf_perms (rp : perms) : Prop :=
+  NoDup (wl rp) /\ NoDup (bl rp) /\ forall p, mem p (wl rp) && mem p (bl rp) = false.
+
 Record inv (s : state) : Prop := mkInv {
   inv_actors : forall a act, lookup a (actors s) = Some act -> NoDup (a_roles act) /\ NoDup (wl (a_perms act));
-  inv_roles : forall r rp, lookup r (rperms s) = Some rp -> NoDup (wl rp) /\ 1 <= r < get_next_role s;
+  inv_roles : forall r rp, lookup r (rperms s) = Some rp ->
+                wf_perms rp /\ 1 <= r < get_next_role s /\ lookup r (rinfo s) <> None;
+  inv_info : forall r sid, lookup r (rinfo s) = Some sid -> lookup r (rperms s) <> None;
   inv_next : 1 <= get_next_role s;
   inv_pa : forall p a, pmem (p, a) (idx_pa s) = match lookup a (actors s) with Some act => mem p (wl (a_perms act)) | None => false end;
   inv_ra : forall r a, pmem (r, a) (idx_ra s) = match lookup a (actors s) with Some act => mem r (a_roles act) | None => false end;
@@ -181,10 +186,7 @@ Record inv (s : state) : Prop := mkInv {
 Lemma inv_empty : inv empty_state.
 Proof. constructor; simpl; intros; try discriminate; try reflexivity; unfold get_next_role; simpl; lia. Qed.
 
-Ltac eqbs := repeat match goal with
-  | |- context [?x =? ?y] => destruct (Z.eqb_spec x y); subst
-  | H : context [?x =? ?y] |- _ => destruct (Z.eqb_spec x y); subst end.
-Ltac bfin := simpl; try congruence; try lia; try btauto.
+Ltac sproj := cbn [actors rperms rinfo rsid next_role idx_pa idx_ra idx_pr].
 
 Lemma aod_pa : forall s a p, inv s -> pmem (p, a) (idx_pa s) = mem p (wl (a_perms (actor_or_default s a))).
 Proof. intros s a p I. rewrite (inv_pa s I). unfold actor_or_default. destruct (lookup a (actors s)); reflexivity. Qed.
@@ -203,11 +205,12 @@ Lemma inv_actor_update : forall s a act' ipa ira,
   (forall r a', pmem (r, a') ira = if a =? a' then mem r (a_roles act') else pmem (r, a') (idx_ra s)) ->
   inv (mkState (upd a act' (actors s)) (rperms s) (rinfo s) (rsid s) (next_role s) ipa ira (idx_pr s)).
 Proof.
-  intros s a act' ipa ira I N1 N2 Hpa Hra. constructor; cbn [actors rperms rinfo rsid next_role idx_pa idx_ra idx_pr].
+  intros s a act' ipa ira I N1 N2 Hpa Hra. constructor; sproj.
   - intros a0 act0. rewrite lookup_upd. destruct (a =? a0).
     + intros E; inversion E; subst; auto.
     + apply (inv_actors s I).
   - apply (inv_roles s I).
+  - apply (inv_info s I).
   - apply (inv_next s I).
   - intros p a0. rewrite Hpa, lookup_upd. destruct (a =? a0); [reflexivity|apply (inv_pa s I)].
   - intros r a0. rewrite Hra, lookup_upd. destruct (a =? a0); [reflexivity|apply (inv_ra s I)].
@@ -215,32 +218,56 @@ Proof.
 Qed.
 
 Lemma inv_role_update : forall s r rp' ipr,
-  inv s -> lookup r (rperms s) <> None -> NoDup (wl rp') ->
+  inv s -> lookup r (rperms s) <> None -> wf_perms rp' ->
   (forall p r', pmem (p, r') ipr = if r =? r' then mem p (wl rp') else pmem (p, r') (idx_pr s)) ->
   inv (mkState (actors s) (upd r rp' (rperms s)) (rinfo s) (rsid s) (next_role s) (idx_pa s) (idx_ra s) ipr).
 Proof.
-  intros s r rp' ipr I Hex N Hpr. constructor; cbn [actors rperms rinfo rsid next_role idx_pa idx_ra idx_pr].
+  intros s r rp' ipr I Hex N Hpr. constructor; sproj.
   - apply (inv_actors s I).
   - intros r0 rp0. rewrite lookup_upd. destruct (Z.eqb_spec r r0).
     + subst r0. intros E; inversion E; subst. split; [assumption|].
       destruct (lookup r (rperms s)) eqn:El; [|congruence]. apply (inv_roles s I r p El).
     + apply (inv_roles s I).
+  - intros r0 sid H. rewrite lookup_upd. destruct (r =? r0); [discriminate|]. apply (inv_info s I r0 sid H).
   - apply (inv_next s I).
   - apply (inv_pa s I).
   - apply (inv_ra s I).
   - intros p r0. rewrite Hpr, lookup_upd. destruct (r =? r0); [reflexivity|apply (inv_pr s I)].
 Qed.
 
-Ltac inv_ok H := unfold opt_err in H; simpl in H.
-
 Lemma add_wl_Some : forall p ps ps', add_wl p ps = Some ps' -> mem p (bl ps) = false /\ mem p (wl ps) = false /\ ps' = mkPerms (wl ps ++ [p]) (bl ps).
 Proof. unfold add_wl; intros p ps ps'. destruct (mem p (bl ps)), (mem p (wl ps)); intros H; inversion H; auto. Qed.
-Lemma add_bl_Some : forall p ps ps', add_bl p ps = Some ps' -> ps' = mkPerms (wl ps) (bl ps ++ [p]).
+Lemma add_bl_Some : forall p ps ps', add_bl p ps = Some ps' -> mem p (wl ps) = false /\ mem p (bl ps) = false /\ ps' = mkPerms (wl ps) (bl ps ++ [p]).
 Proof. unfold add_bl; intros p ps ps'. destruct (mem p (wl ps)), (mem p (bl ps)); intros H; inversion H; auto. Qed.
 Lemma rm_wl_Some : forall p ps ps', rm_wl p ps = Some ps' -> ps' = mkPerms (remove_first p (wl ps)) (bl ps).
 Proof. unfold rm_wl; intros p ps ps'. destruct (mem p (wl ps)); intros H; inversion H; auto. Qed.
 Lemma rm_bl_Some : forall p ps ps', rm_bl p ps = Some ps' -> ps' = mkPerms (wl ps) (remove_first p (bl ps)).
 Proof. unfold rm_bl; intros p ps ps'. destruct (mem p (bl ps)); intros H; inversion H; auto. Qed.
+
+Lemma wf_add_wl : forall p rp rp', wf_perms rp -> add_wl p rp = Some rp' -> wf_perms rp'.
+Proof.
+  intros p rp rp' [N1 [N2 D]] H. apply add_wl_Some in H. destruct H as [Hb [Hw ->]]. unfold wf_perms; cbn [wl bl].
+  split; [apply NoDup_snoc; [assumption|apply mem_false_In; assumption]|]. split; [assumption|].
+  intros q. rewrite mem_app, mem_cons. simpl. destruct (Z.eqb_spec q p); [subst; rewrite Hb; btauto|]. rewrite !orb_false_r. apply D.
+Qed.
+Lemma wf_add_bl : forall p rp rp', wf_perms rp -> add_bl p rp = Some rp' -> wf_perms rp'.
+Proof.
+  intros p rp rp' [N1 [N2 D]] H. apply add_bl_Some in H. destruct H as [Hw [Hb ->]]. unfold wf_perms; cbn [wl bl].
+  split; [assumption|]. split; [apply NoDup_snoc; [assumption|apply mem_false_In; assumption]|].
+  intros q. rewrite mem_app, mem_cons. simpl. destruct (Z.eqb_spec q p); [subst; rewrite Hw; btauto|]. rewrite !orb_false_r. apply D.
+Qed.
+Lemma wf_rm_wl : forall p rp rp', wf_perms rp -> rm_wl p rp = Some rp' -> wf_perms rp'.
+Proof.
+  intros p rp rp' [N1 [N2 D]] H. apply rm_wl_Some in H. subst rp'. unfold wf_perms; cbn [wl bl].
+  split; [apply remove_first_NoDup; assumption|]. split; [assumption|].
+  intros q. rewrite mem_remove_first by assumption. specialize (D q). destruct (mem q (wl rp)), (mem q (bl rp)), (q =? p); simpl in *; congruence.
+Qed.
+Lemma wf_rm_bl : forall p rp rp', wf_perms rp -> rm_bl p rp = Some rp' -> wf_perms rp'.
+Proof.
+  intros p rp rp' [N1 [N2 D]] H. apply rm_bl_Some in H. subst rp'. unfold wf_perms; cbn [wl bl].
+  split; [assumption|]. split; [apply remove_first_NoDup; assumption|].
+  intros q. rewrite mem_remove_first by assumption. specialize (D q). destruct (mem q (wl rp)), (mem q (bl rp)), (q =? p); simpl in *; congruence.
+Qed.
 
 Lemma k_add_wl_acc_inv : forall s a p s', inv s -> k_add_wl_acc s a p = Ok s' -> inv s'.
 Proof.
@@ -260,7 +287,7 @@ Lemma k_add_bl_acc_inv : forall s a p s', inv s -> k_add_bl_acc s a p = Ok s' ->
 Proof.
   intros s a p s' I H. unfold k_add_bl_acc in H.
   destruct (add_bl p (a_perms (actor_or_default s a))) as [ps|] eqn:E; simpl in H; [|discriminate].
-  inversion H; subst s'; clear H. apply add_bl_Some in E. subst ps.
+  inversion H; subst s'; clear H. apply add_bl_Some in E. destruct E as [_ [_ ->]].
   destruct (aod_nd s a I) as [N1 N2].
   unfold save_actor, with_actors; simpl. apply inv_actor_update; simpl; auto.
   - intros q a'. destruct (Z.eqb_spec a a'); [subst; apply aod_pa; assumption|reflexivity].
@@ -304,20 +331,20 @@ Proof.
   intros s r p s' I H. unfold k_wl_role in H.
   destruct (k_role_edit add_wl s r p) as [rp'| |] eqn:E; simpl in H; try discriminate.
   inversion H; subst s'; clear H. apply k_role_edit_Ok in E. destruct E as [rp [El Ea]].
+  destruct (inv_roles s I r rp El) as [W _]. pose proof (wf_add_wl _ _ _ W Ea) as W'.
   apply add_wl_Some in Ea. destruct Ea as [_ [Hw ->]].
-  destruct (inv_roles s I r rp El) as [N _].
-  unfold with_idx_pr, with_rperms; simpl. apply inv_role_update; simpl; auto; [congruence| |].
-  - apply NoDup_snoc; [assumption|apply mem_false_In; assumption].
-  - intros q r'. rewrite pmem_padd, pair_eqb_pair. destruct (Z.eqb_spec r r').
-    + subst r'. rewrite (inv_pr s I), El, mem_app, mem_cons. simpl. rewrite Z.eqb_refl. btauto.
-    + rewrite (Z.eqb_sym r' r). destruct (Z.eqb_spec r r'); [congruence|]. rewrite andb_false_r. reflexivity.
+  unfold with_idx_pr, with_rperms; simpl. apply inv_role_update; simpl; auto; [congruence|].
+  intros q r'. rewrite pmem_padd, pair_eqb_pair. destruct (Z.eqb_spec r r').
+  - subst r'. rewrite (inv_pr s I), El, mem_app, mem_cons. simpl. rewrite Z.eqb_refl. btauto.
+  - rewrite (Z.eqb_sym r' r). destruct (Z.eqb_spec r r'); [congruence|]. rewrite andb_false_r. reflexivity.
 Qed.
 Lemma k_bl_role_inv : forall s r p s', inv s -> k_bl_role s r p = Ok s' -> inv s'.
 Proof.
   intros s r p s' I H. unfold k_bl_role in H.
   destruct (k_role_edit add_bl s r p) as [rp'| |] eqn:E; simpl in H; try discriminate.
   inversion H; subst s'; clear H. apply k_role_edit_Ok in E. destruct E as [rp [El Ea]].
-  apply add_bl_Some in Ea. subst rp'. destruct (inv_roles s I r rp El) as [N _].
+  destruct (inv_roles s I r rp El) as [W _]. pose proof (wf_add_bl _ _ _ W Ea) as W'.
+  apply add_bl_Some in Ea. destruct Ea as [_ [_ ->]].
   unfold with_rperms; simpl. apply inv_role_update; simpl; auto; [congruence|].
   intros q r'. destruct (Z.eqb_spec r r'); [subst r'; rewrite (inv_pr s I), El|]; reflexivity.
 Qed.
@@ -326,19 +353,20 @@ Proof.
   intros s r p s' I H. unfold k_rm_wl_role in H.
   destruct (k_role_edit rm_wl s r p) as [rp'| |] eqn:E; simpl in H; try discriminate.
   inversion H; subst s'; clear H. apply k_role_edit_Ok in E. destruct E as [rp [El Ea]].
-  apply rm_wl_Some in Ea. subst rp'. destruct (inv_roles s I r rp El) as [N _].
-  unfold with_idx_pr, with_rperms; simpl. apply inv_role_update; simpl; auto; [congruence| |].
-  - apply remove_first_NoDup; assumption.
-  - intros q r'. rewrite pmem_pdel, pair_eqb_pair. destruct (Z.eqb_spec r r').
-    + subst r'. rewrite (inv_pr s I), El, mem_remove_first by assumption. rewrite Z.eqb_refl. btauto.
-    + rewrite (Z.eqb_sym r' r). destruct (Z.eqb_spec r r'); [congruence|]. rewrite andb_false_r. reflexivity.
+  destruct (inv_roles s I r rp El) as [W _]. pose proof (wf_rm_wl _ _ _ W Ea) as W'. destruct W as [N _].
+  apply rm_wl_Some in Ea. subst rp'.
+  unfold with_idx_pr, with_rperms; simpl. apply inv_role_update; simpl; auto; [congruence|].
+  intros q r'. rewrite pmem_pdel, pair_eqb_pair. destruct (Z.eqb_spec r r').
+  - subst r'. rewrite (inv_pr s I), El, mem_remove_first by assumption. rewrite Z.eqb_refl. btauto.
+  - rewrite (Z.eqb_sym r' r). destruct (Z.eqb_spec r r'); [congruence|]. rewrite andb_false_r. reflexivity.
 Qed.
 Lemma k_rm_bl_role_inv : forall s r p s', inv s -> k_rm_bl_role s r p = Ok s' -> inv s'.
 Proof.
   intros s r p s' I H. unfold k_rm_bl_role in H.
   destruct (k_role_edit rm_bl s r p) as [rp'| |] eqn:E; simpl in H; try discriminate.
   inversion H; subst s'; clear H. apply k_role_edit_Ok in E. destruct E as [rp [El Ea]].
-  apply rm_bl_Some in Ea. subst rp'. destruct (inv_roles s I r rp El) as [N _].
+  destruct (inv_roles s I r rp El) as [W _]. pose proof (wf_rm_bl _ _ _ W Ea) as W'.
+  apply rm_bl_Some in Ea. subst rp'.
   unfold with_rperms; simpl. apply inv_role_update; simpl; auto; [congruence|].
   intros q r'. destruct (Z.eqb_spec r r'); [subst r'; rewrite (inv_pr s I), El|]; reflexivity.
 Qed.
@@ -379,41 +407,451 @@ Proof.
   - destruct (f st b) as [st1| |] eqn:E; simpl in H; try discriminate. eapply IH; [eapply Hf; eauto|exact H].
 Qed.
 
-Lemma k_create_role_inv : forall s sid, inv s -> inv (fst (k_create_role s sid)).
+Lemma wf_no_perms : wf_perms no_perms.
+Proof. unfold wf_perms; simpl. repeat split; try constructor. Qed.
+
+(* SetRole for a role id that has no permission record yet *)
+Lemma k_set_role_inv : forall s id sid nxt,
+  inv s -> lookup id (rperms s) = None -> 1 <= id < nxt -> get_next_role s <= nxt ->
+  inv (let s1 := k_set_role s id sid in mkState (actors s1) (rperms s1) (rinfo s1) (rsid s1) (Some nxt) (idx_pa s1) (idx_ra s1) (idx_pr s1)).
 Proof.
-  intros s sid I. unfold k_create_role, k_set_role; simpl.
-  assert (Hn : lookup (get_next_role s) (rperms s) = None).
-  { destruct (lookup (get_next_role s) (rperms s)) eqn:E; [|reflexivity].
-    destruct (inv_roles s I _ _ E) as [_ H]. lia. }
-  constructor; cbn [actors rperms rinfo rsid next_role idx_pa idx_ra idx_pr].
+  intros s id sid nxt I Hn Hid Hnx. unfold k_set_role; cbv zeta; sproj.
+  constructor; sproj; unfold get_next_role; sproj.
   - apply (inv_actors s I).
-  - intros r rp. rewrite lookup_upd. unfold get_next_role at 2 3; simpl. destruct (Z.eqb_spec (get_next_role s) r).
-    + intros E; inversion E; subst. simpl. split; [constructor|]. pose proof (inv_next s I). lia.
-    + intros E. destruct (inv_roles s I r rp E). split; [assumption|lia].
-  - unfold get_next_role at 1; simpl. pose proof (inv_next s I). lia.
+  - intros r rp. rewrite !lookup_upd. destruct (Z.eqb_spec id r).
+    + intros E; inversion E; subst. split; [apply wf_no_perms|]. split; [lia|discriminate].
+    + intros E. destruct (inv_roles s I r rp E) as [W [R Hi]]. split; [assumption|]. split; [lia|assumption].
+  - intros r sd. rewrite !lookup_upd. destruct (id =? r); [discriminate|]. apply (inv_info s I).
+  - lia.
   - apply (inv_pa s I).
   - apply (inv_ra s I).
-  - intros p r. rewrite lookup_upd, (inv_pr s I). destruct (Z.eqb_spec (get_next_role s) r); [subst r; rewrite Hn|]; reflexivity.
+  - intros p r. rewrite lookup_upd, (inv_pr s I). destruct (Z.eqb_spec id r); [subst r; rewrite Hn|]; reflexivity.
 Qed.
 
-(* ---- the guard: operations whose index maintenance is refuted (see *_refuted below) *)
+Lemma k_create_role_inv : forall s sid, inv s -> inv (fst (k_create_role s sid)).
+Proof.
+  intros s sid I. unfold k_create_role; cbn [fst].
+  assert (Hn : lookup (get_next_role s) (rperms s) = None).
+  { destruct (lookup (get_next_role s) (rperms s)) eqn:E; [|reflexivity].
+    destruct (inv_roles s I _ _ E) as [_ [H _]]. lia. }
+  pose proof (inv_next s I).
+  apply (k_set_role_inv s (get_next_role s) sid (get_next_role s + 1) I Hn); lia.
+Qed.
+
+(* ---- the guard: operations whose index maintenance is refuted in the unrepaired variants *)
 Definition claim_whitelists (s : state) (a : Z) : bool :=
   check_allowed s a PermClaimCouncilor &&
   match lookup a (actors s) with
   | Some act => match add_wl PermCreatePollProposal (a_perms act) with Some _ => true | None => false end
   | None => false end.
-Definition safe (s : state) (o : op) : Prop :=
-  match o with
-  | OClaimCouncilor a => claim_whitelists s a = false
-  | ORotate a _ => lookup a (actors s) = None
-  | OExportImport => inv (export_import s)
-  | _ => True
-  end.
 
 Lemma gated_Ok : forall b k s', gated b k = Ok s' -> k = Ok s'.
 Proof. unfold gated; intros b k s'; destruct b; [auto|discriminate]. Qed.
 
-Lemma step_inv : forall s o s', inv s -> safe s o -> step s o = Ok s' -> inv s'.
+(* ------------------------------------------------------------------ genesis export / import *)
+Lemma lookup_canon : forall {V} (l : list (Z * V)) seen k,
+  lookup k (canon seen l) = if mem k seen then None else lookup k l.
+Proof.
+  intros V l; induction l as [|[k0 v0] r IH]; intros seen k; simpl.
+  - destruct (mem k seen); reflexivity.
+  - destruct (mem k0 seen) eqn:E0.
+    + rewrite IH. destruct (Z.eqb_spec k0 k); [subst; rewrite E0; reflexivity|reflexivity].
+    + simpl. destruct (Z.eqb_spec k0 k).
+      * subst. rewrite E0. reflexivity.
+      * rewrite IH. rewrite mem_cons. destruct (Z.eqb_spec k k0); [congruence|]. reflexivity.
+Qed.
+Lemma canon_In_lookup : forall {V} (l : list (Z * V)) seen k v,
+  In (k, v) (canon seen l) -> lookup k l = Some v /\ mem k seen = false.
+Proof.
+  intros V l; induction l as [|[k0 v0] r IH]; intros seen k v H; simpl in *; [contradiction|].
+  destruct (mem k0 seen) eqn:E0.
+  - destruct (IH _ _ _ H) as [H1 H2]. split; [|assumption].
+    destruct (Z.eqb_spec k0 k); [subst; congruence|assumption].
+  - destruct H as [H|H].
+    + inversion H; subst. rewrite Z.eqb_refl. auto.
+    + destruct (IH _ _ _ H) as [H1 H2]. rewrite mem_cons in H2. apply orb_false_iff in H2. destruct H2 as [H2 H3].
+      split; [|assumption]. rewrite Z.eqb_sym in H2. rewrite H2. assumption.
+Qed.
+Lemma lookup_In_canon : forall {V} (l : list (Z * V)) seen k v,
+  lookup k l = Some v -> mem k seen = false -> In (k, v) (canon seen l).
+Proof.
+  intros V l; induction l as [|[k0 v0] r IH]; intros seen k v H Hs; simpl in *; [discriminate|].
+  destruct (Z.eqb_spec k0 k).
+  - subst. inversion H; subst. rewrite Hs. left; reflexivity.
+  - destruct (mem k0 seen); [apply IH; assumption|]. right. apply IH; [assumption|].
+    rewrite mem_cons. destruct (Z.eqb_spec k k0); [congruence|assumption].
+Qed.
+Lemma canon_NoDup : forall {V} (l : list (Z * V)) seen, NoDup (map fst (canon seen l)).
+Proof.
+  intros V l; induction l as [|[k0 v0] r IH]; intros seen; simpl; [constructor|].
+  destruct (mem k0 seen); [apply IH|]. simpl. constructor; [|apply IH].
+  intros H. apply in_map_iff in H. destruct H as [[k v] [Hk Hin]]. simpl in Hk; subst k.
+  apply canon_In_lookup in Hin. destruct Hin as [_ Hm]. rewrite mem_cons, Z.eqb_refl in Hm. discriminate.
+Qed.
+Lemma lookup_notin : forall {V} (l : list (Z * V)) k, ~ In k (map fst l) -> lookup k l = None.
+Proof.
+  intros V l; induction l as [|[k0 v0] r IH]; intros k H; simpl in *; [reflexivity|].
+  destruct (Z.eqb_spec k0 k); [exfalso; apply H; auto|]. apply IH. tauto.
+Qed.
+Lemma In_lookup_NoDup : forall {V} (l : list (Z * V)) k v, NoDup (map fst l) -> In (k, v) l -> lookup k l = Some v.
+Proof.
+  intros V l; induction l as [|[k0 v0] r IH]; intros k v N H; simpl in *; [contradiction|].
+  inversion N; subst. destruct H as [H|H].
+  - inversion H; subst. rewrite Z.eqb_refl. reflexivity.
+  - destruct (Z.eqb_spec k0 k); [|apply IH; assumption].
+    subst. exfalso. apply H2. apply in_map_iff. exists (k, v); auto.
+Qed.
+
+Lemma pmem_padd_all : forall xs l x, pmem x (padd_all xs l) = pmem x l || pmem x xs.
+Proof.
+  unfold padd_all; intros xs; induction xs as [|y xs IH]; intros l x; simpl.
+  - rewrite orb_false_r; reflexivity.
+  - rewrite IH, pmem_padd. destruct (pair_eqb x y), (pmem x l), (pmem x xs); reflexivity.
+Qed.
+Lemma pmem_pdel_all : forall xs l x, pmem x (pdel_all xs l) = pmem x l && negb (pmem x xs).
+Proof.
+  unfold pdel_all; intros xs; induction xs as [|y xs IH]; intros l x; simpl.
+  - rewrite andb_true_r; reflexivity.
+  - rewrite IH, pmem_pdel. destruct (pair_eqb x y), (pmem x l), (pmem x xs); reflexivity.
+Qed.
+Lemma pmem_keys_for : forall a l x a', pmem (x, a') (keys_for a l) = (a' =? a) && mem x l.
+Proof.
+  unfold keys_for; intros a l x a'; induction l as [|y l IH]; simpl.
+  - rewrite andb_false_r; reflexivity.
+  - rewrite IH, pair_eqb_pair. destruct (x =? y), (a' =? a), (mem x l); reflexivity.
+Qed.
+
+Lemma import_actor_inv : forall st a act,
+  inv st -> lookup a (actors st) = None -> NoDup (a_roles act) -> NoDup (wl (a_perms act)) ->
+  inv (import_actor st (a, act)).
+Proof.
+  intros st a act I Hn N1 N2. unfold import_actor, with_idx_pa, with_idx_ra, save_actor, with_actors; sproj.
+  apply inv_actor_update; auto.
+  - intros p a'. rewrite pmem_padd_all, pmem_keys_for. destruct (Z.eqb_spec a a').
+    + subst a'. rewrite (inv_pa st I), Hn, Z.eqb_refl. reflexivity.
+    + rewrite (Z.eqb_sym a' a). destruct (Z.eqb_spec a a'); [congruence|]. simpl. apply orb_false_r.
+  - intros r a'. rewrite pmem_padd_all, pmem_keys_for. destruct (Z.eqb_spec a a').
+    + subst a'. rewrite (inv_ra st I), Hn, Z.eqb_refl. reflexivity.
+    + rewrite (Z.eqb_sym a' a). destruct (Z.eqb_spec a a'); [congruence|]. simpl. apply orb_false_r.
+Qed.
+
+Definition same_roles (st' st : state) : Prop :=
+  rperms st' = rperms st /\ rinfo st' = rinfo st /\ next_role st' = next_role st /\ idx_pr st' = idx_pr st.
+
+Lemma import_actors_fold : forall l st,
+  NoDup (map fst l) -> inv st ->
+  (forall a act, In (a, act) l -> lookup a (actors st) = None /\ NoDup (a_roles act) /\ NoDup (wl (a_perms act))) ->
+  inv (fold_left import_actor l st) /\ same_roles (fold_left import_actor l st) st /\
+  (forall a, lookup a (actors (fold_left import_actor l st)) = match lookup a l with Some act => Some act | None => lookup a (actors st) end).
+Proof.
+  induction l as [|[a0 act0] r IH]; intros st N I H; cbn [fold_left].
+  - split; [assumption|]. split; [repeat split|reflexivity].
+  - inversion N as [|? ? Hnot N']; subst.
+    destruct (H a0 act0 (or_introl eq_refl)) as [Hn [N1 N2]].
+    pose proof (import_actor_inv st a0 act0 I Hn N1 N2) as I1.
+    assert (Hl : forall a', lookup a' (actors (import_actor st (a0, act0))) = if a0 =? a' then Some act0 else lookup a' (actors st)).
+    { intros a'. unfold import_actor, with_idx_pa, with_idx_ra, save_actor, with_actors; sproj. apply lookup_upd. }
+    destruct (IH (import_actor st (a0, act0)) N' I1) as [I2 [S2 L2]].
+    { intros a act Hin. destruct (H a act (or_intror Hin)) as [Hn' W]. split; [|assumption].
+      rewrite Hl. destruct (Z.eqb_spec a0 a); [|assumption].
+      subst. exfalso. apply Hnot. apply in_map_iff. exists (a, act); auto. }
+    split; [assumption|]. split.
+    + destruct S2 as [A [B [C D]]]. unfold same_roles. rewrite A, B, C, D. repeat split.
+    + intros a. rewrite L2, Hl. cbn [lookup]. destruct (Z.eqb_spec a0 a); [|reflexivity].
+      subst. rewrite (lookup_notin r a Hnot). reflexivity.
+Qed.
+
+Lemma k_set_role_inv' : forall s id sid,
+  inv s -> lookup id (rperms s) = None -> 1 <= id < get_next_role s -> inv (k_set_role s id sid).
+Proof.
+  intros s id sid I Hn Hid. unfold k_set_role.
+  constructor; sproj; unfold get_next_role; sproj; fold (get_next_role s).
+  - apply (inv_actors s I).
+  - intros r rp. rewrite !lookup_upd. destruct (Z.eqb_spec id r).
+    + intros E; inversion E; subst. split; [apply wf_no_perms|]. split; [lia|discriminate].
+    + intros E. apply (inv_roles s I r rp E).
+  - intros r sd. rewrite !lookup_upd. destruct (id =? r); [discriminate|]. apply (inv_info s I).
+  - apply (inv_next s I).
+  - apply (inv_pa s I).
+  - apply (inv_ra s I).
+  - intros p r. rewrite lookup_upd, (inv_pr s I). destruct (Z.eqb_spec id r); [subst r; rewrite Hn|]; reflexivity.
+Qed.
+
+Definition same_actors (st' st : state) : Prop :=
+  actors st' = actors st /\ idx_pa st' = idx_pa st /\ idx_ra st' = idx_ra st /\ next_role st' = next_role st.
+
+Definition set_role_step (st : state) (e : Z * Z) : state := k_set_role st (fst e) (snd e).
+Lemma import_roles_fold : forall l st,
+  NoDup (map fst l) -> inv st ->
+  (forall r sid, In (r, sid) l -> lookup r (rperms st) = None /\ 1 <= r < get_next_role st) ->
+  inv (fold_left set_role_step l st) /\ same_actors (fold_left set_role_step l st) st /\
+  idx_pr (fold_left set_role_step l st) = idx_pr st /\
+  (forall r, lookup r (rperms (fold_left set_role_step l st)) = match lookup r l with Some _ => Some no_perms | None => lookup r (rperms st) end) /\
+  (forall r, lookup r (rinfo (fold_left set_role_step l st)) = match lookup r l with Some sid => Some sid | None => lookup r (rinfo st) end).
+Proof.
+  induction l as [|[r0 sid0] l IH]; intros st N I H; cbn [fold_left].
+  - split; [assumption|]. split; [repeat split|]. split; [reflexivity|]. split; reflexivity.
+  - inversion N as [|? ? Hnot N']; subst.
+    destruct (H r0 sid0 (or_introl eq_refl)) as [Hn Hr].
+    pose proof (k_set_role_inv' st r0 sid0 I Hn Hr) as I1.
+    unfold set_role_step at 2 4 6 8 10; cbn [fst snd].
+    destruct (IH (k_set_role st r0 sid0) N' I1) as [I2 [S2 [P2 [L2 L3]]]].
+    { intros r sid Hin. destruct (H r sid (or_intror Hin)) as [Hn' Hr']. split.
+      - unfold k_set_role; sproj. rewrite lookup_upd. destruct (Z.eqb_spec r0 r); [|assumption].
+        subst. exfalso. apply Hnot. apply in_map_iff. exists (r, sid); auto.
+      - exact Hr'. }
+    split; [assumption|]. split; [|split; [|split]].
+    + destruct S2 as [A [B [C D]]]. unfold same_actors. rewrite A, B, C, D. repeat split.
+    + rewrite P2. reflexivity.
+    + intros r. rewrite L2. unfold k_set_role; sproj. rewrite lookup_upd. cbn [lookup].
+      destruct (Z.eqb_spec r0 r); [|reflexivity]. subst. rewrite (lookup_notin l r Hnot). reflexivity.
+    + intros r. rewrite L3. unfold k_set_role; sproj. rewrite lookup_upd. cbn [lookup].
+      destruct (Z.eqb_spec r0 r); [|reflexivity]. subst. rewrite (lookup_notin l r Hnot). reflexivity.
+Qed.
+
+(* ---- phase 3: role whitelists (and, in the repaired variant, blacklists), errors ignored *)
+Definition frame3 (st' st : state) : Prop := same_actors st' st /\ rinfo st' = rinfo st.
+Lemma frame3_refl : forall st, frame3 st st.
+Proof. intros st; unfold frame3, same_actors; repeat split. Qed.
+Lemma frame3_trans : forall a b c, frame3 a b -> frame3 b c -> frame3 a c.
+Proof.
+  unfold frame3, same_actors; intros a b c [[A1 [A2 [A3 A4]]] A5] [[B1 [B2 [B3 B4]]] B5].
+  rewrite A1, A2, A3, A4, A5, B1, B2, B3, B4, B5. repeat split.
+Qed.
+
+Definition keep (f : Z -> perms -> option perms) (cur : perms) (p : Z) : perms := match f p cur with Some x => x | None => cur end.
+Definition imp_add (f : Z -> perms -> option perms) (cur : perms) (ps : list Z) : perms := fold_left (keep f) ps cur.
+
+Definition role_step_spec (f : Z -> perms -> option perms) (r p : Z) (st st' : state) : Prop :=
+  frame3 st' st /\ (forall r', r' <> r -> lookup r' (rperms st') = lookup r' (rperms st)) /\
+  lookup r (rperms st') = option_map (fun cur => keep f cur p) (lookup r (rperms st)).
+
+Lemma try_wl_step : forall r p st, inv st ->
+  inv (try_edit k_wl_role r st p) /\ role_step_spec add_wl r p st (try_edit k_wl_role r st p).
+Proof.
+  intros r p st I. split.
+  - unfold try_edit. destruct (k_wl_role st r p) eqn:E; try assumption. eapply k_wl_role_inv; eauto.
+  - unfold role_step_spec, try_edit, k_wl_role, k_role_edit, opt_err, keep.
+    destruct (lookup r (rperms st)) as [cur|] eqn:El; [destruct (add_wl p cur) as [x|] eqn:Ea|]; cbn [bind option_map].
+    + unfold with_idx_pr, with_rperms; sproj. split; [unfold frame3, same_actors; sproj; repeat split|]. split.
+      * intros r' Hr. rewrite lookup_upd. destruct (Z.eqb_spec r r'); [congruence|reflexivity].
+      * rewrite lookup_upd, Z.eqb_refl, Ea. reflexivity.
+    + split; [apply frame3_refl|]. split; [reflexivity|]. rewrite El, Ea. reflexivity.
+    + split; [apply frame3_refl|]. split; [reflexivity|]. rewrite El. reflexivity.
+Qed.
+Lemma try_bl_step : forall r p st, inv st ->
+  inv (try_edit k_bl_role r st p) /\ role_step_spec add_bl r p st (try_edit k_bl_role r st p).
+Proof.
+  intros r p st I. split.
+  - unfold try_edit. destruct (k_bl_role st r p) eqn:E; try assumption. eapply k_bl_role_inv; eauto.
+  - unfold role_step_spec, try_edit, k_bl_role, k_role_edit, opt_err, keep.
+    destruct (lookup r (rperms st)) as [cur|] eqn:El; [destruct (add_bl p cur) as [x|] eqn:Ea|]; cbn [bind option_map].
+    + unfold with_rperms; sproj. split; [unfold frame3, same_actors; sproj; repeat split|]. split.
+      * intros r' Hr. rewrite lookup_upd. destruct (Z.eqb_spec r r'); [congruence|reflexivity].
+      * rewrite lookup_upd, Z.eqb_refl, Ea. reflexivity.
+    + split; [apply frame3_refl|]. split; [reflexivity|]. rewrite El, Ea. reflexivity.
+    + split; [apply frame3_refl|]. split; [reflexivity|]. rewrite El. reflexivity.
+Qed.
+
+Definition role_fold_spec (g : perms -> perms) (r : Z) (st st' : state) : Prop :=
+  frame3 st' st /\ (forall r', r' <> r -> lookup r' (rperms st') = lookup r' (rperms st)) /\
+  lookup r (rperms st') = option_map g (lookup r (rperms st)).
+
+Lemma try_fold : forall (ed : state -> Z -> Z -> outcome state) f r,
+  (forall p st, inv st -> inv (try_edit ed r st p) /\ role_step_spec f r p st (try_edit ed r st p)) ->
+  forall ps st, inv st ->
+  inv (fold_left (try_edit ed r) ps st) /\ role_fold_spec (fun cur => imp_add f cur ps) r st (fold_left (try_edit ed r) ps st).
+Proof.
+  intros ed f r Hstep ps; induction ps as [|p ps IH]; intros st I; cbn [fold_left].
+  - split; [assumption|]. unfold role_fold_spec, imp_add; simpl. split; [apply frame3_refl|]. split; [reflexivity|].
+    destruct (lookup r (rperms st)); reflexivity.
+  - destruct (Hstep p st I) as [I1 [F1 [O1 L1]]]. destruct (IH _ I1) as [I2 [F2 [O2 L2]]].
+    split; [assumption|]. split; [eapply frame3_trans; eauto|]. split.
+    + intros r' Hr. rewrite O2, O1 by assumption. reflexivity.
+    + rewrite L2, L1. unfold imp_add; cbn [fold_left]. destruct (lookup r (rperms st)); reflexivity.
+Qed.
+
+Definition imp_perms (b : bool) (cur rp : perms) : perms :=
+  let c1 := imp_add add_wl cur (wl rp) in if b then imp_add add_bl c1 (bl rp) else c1.
+
+Lemma import_role_spec : forall b r rp st, inv st ->
+  inv (import_role b st (r, rp)) /\ role_fold_spec (fun cur => imp_perms b cur rp) r st (import_role b st (r, rp)).
+Proof.
+  intros b r rp st I. unfold import_role.
+  destruct (try_fold k_wl_role add_wl r (try_wl_step r) (wl rp) st I) as [I1 S1].
+  destruct b.
+  - destruct (try_fold k_bl_role add_bl r (try_bl_step r) (bl rp) _ I1) as [I2 [F2 [O2 L2]]].
+    destruct S1 as [F1 [O1 L1]]. split; [assumption|]. split; [eapply frame3_trans; eauto|]. split.
+    + intros r' Hr. rewrite O2, O1 by assumption. reflexivity.
+    + rewrite L2, L1. unfold imp_perms. destruct (lookup r (rperms st)); reflexivity.
+  - split; [assumption|]. exact S1.
+Qed.
+
+Lemma imp_add_wl_fresh : forall ws w, NoDup (w ++ ws) -> imp_add add_wl (mkPerms w []) ws = mkPerms (w ++ ws) [].
+Proof.
+  unfold imp_add; induction ws as [|p ws IH]; intros w N; cbn [fold_left].
+  - rewrite app_nil_r; reflexivity.
+  - assert (Hp : mem p w = false).
+    { apply mem_false_In. intros Hin. apply NoDup_remove_2 in N. apply N. apply in_or_app; left; assumption. }
+    assert (E : keep add_wl (mkPerms w []) p = mkPerms (w ++ [p]) []).
+    { unfold keep, add_wl; cbn [wl bl]. change (mem p []) with false. cbv iota. rewrite Hp. reflexivity. }
+    rewrite E.
+    rewrite IH; [rewrite <- app_assoc; reflexivity|]. rewrite <- app_assoc. exact N.
+Qed.
+Lemma imp_add_bl_fresh : forall bs w b0, NoDup (b0 ++ bs) -> (forall q, In q bs -> mem q w = false) ->
+  imp_add add_bl (mkPerms w b0) bs = mkPerms w (b0 ++ bs).
+Proof.
+  unfold imp_add; induction bs as [|p bs IH]; intros w b0 N D; cbn [fold_left].
+  - rewrite app_nil_r; reflexivity.
+  - assert (Hp : mem p b0 = false).
+    { apply mem_false_In. intros Hin. apply NoDup_remove_2 in N. apply N. apply in_or_app; left; assumption. }
+    assert (E : keep add_bl (mkPerms w b0) p = mkPerms w (b0 ++ [p])).
+    { unfold keep, add_bl; cbn [wl bl]. rewrite (D p (or_introl eq_refl)), Hp. reflexivity. }
+    rewrite E.
+    rewrite IH; [rewrite <- app_assoc; reflexivity| |].
+    + rewrite <- app_assoc. exact N.
+    + intros q Hq. apply D. right; assumption.
+Qed.
+Lemma imp_perms_wf : forall b rp, wf_perms rp -> imp_perms b no_perms rp = if b then rp else mkPerms (wl rp) [].
+Proof.
+  intros b rp [N1 [N2 D]]. unfold imp_perms, no_perms. rewrite (imp_add_wl_fresh (wl rp) []) by exact N1. cbn [app].
+  destruct b; [|reflexivity].
+  rewrite (imp_add_bl_fresh (bl rp) (wl rp) []); [destruct rp; reflexivity|exact N2|].
+  intros q Hq. apply mem_In in Hq. specialize (D q). rewrite Hq, andb_true_r in D. exact D.
+Qed.
+
+Lemma import_perms_fold : forall b l st,
+  NoDup (map fst l) -> inv st ->
+  inv (fold_left (import_role b) l st) /\ frame3 (fold_left (import_role b) l st) st /\
+  (forall r, lookup r (rperms (fold_left (import_role b) l st)) =
+             match lookup r l with Some rp => option_map (fun cur => imp_perms b cur rp) (lookup r (rperms st)) | None => lookup r (rperms st) end).
+Proof.
+  intros b l; induction l as [|[r0 rp0] l IH]; intros st N I; cbn [fold_left].
+  - split; [assumption|]. split; [apply frame3_refl|reflexivity].
+  - inversion N as [|? ? Hnot N']; subst.
+    destruct (import_role_spec b r0 rp0 st I) as [I1 [F1 [O1 L1]]].
+    destruct (IH _ N' I1) as [I2 [F2 L2]].
+    split; [assumption|]. split; [eapply frame3_trans; eauto|].
+    intros r. rewrite L2. cbn [lookup]. destruct (Z.eqb_spec r0 r).
+    + subst. rewrite (lookup_notin l r Hnot). exact L1.
+    + rewrite O1 by congruence. reflexivity.
+Qed.
+
+Lemma inv_import_start : forall s, inv s -> inv (import_start s).
+Proof.
+  intros s I. pose proof (inv_next s I). constructor; unfold import_start, get_next_role; sproj; simpl; intros; try discriminate; try reflexivity.
+  fold (get_next_role s). assumption.
+Qed.
+
+Lemma import_facts : forall b s, inv s ->
+  inv (export_import b s) /\
+  (forall a, lookup a (actors (export_import b s)) = lookup a (actors s)) /\
+  (forall r, lookup r (rperms (export_import b s)) = option_map (fun rp => if b then rp else mkPerms (wl rp) []) (lookup r (rperms s))).
+Proof.
+  intros b s I.
+  (* phase 1 *)
+  destruct (import_actors_fold (canon [] (actors s)) (import_start s) (canon_NoDup _ _) (inv_import_start s I)) as [I1 [[R1 [R2 [R3 R4]]] L1]].
+  { intros a act Hin. apply canon_In_lookup in Hin. destruct Hin as [Hl _]. split; [reflexivity|]. apply (inv_actors s I a act Hl). }
+  fold (import_phase1 s) in I1, R1, R2, R3, R4, L1.
+  assert (Hnx : get_next_role (import_phase1 s) = get_next_role s).
+  { unfold get_next_role at 1. rewrite R3. reflexivity. }
+  (* phase 2 *)
+  destruct (import_roles_fold (canon [] (rinfo s)) (import_phase1 s) (canon_NoDup _ _) I1) as [I2 [[A1 [A2 [A3 A4]]] [P2 [L2 L3]]]].
+  { intros r sid Hin. apply canon_In_lookup in Hin. destruct Hin as [Hl _]. split; [rewrite R1; reflexivity|].
+    rewrite Hnx. pose proof (inv_info s I r sid Hl) as Hp. destruct (lookup r (rperms s)) as [rp|] eqn:E; [|congruence].
+    apply (inv_roles s I r rp E). }
+  change (fold_left set_role_step (canon [] (rinfo s)) (import_phase1 s)) with (import_phase2 s) in *.
+  (* phase 3 *)
+  destruct (import_perms_fold b (canon [] (rperms s)) (import_phase2 s) (canon_NoDup _ _) I2) as [I3 [[[B1 [B2 [B3 B4]]] B5] L4]].
+  change (fold_left (import_role b) (canon [] (rperms s)) (import_phase2 s)) with (export_import b s) in *.
+  split; [assumption|]. split.
+  - intros a. rewrite B1, A1, L1, lookup_canon. simpl. destruct (lookup a (actors s)); reflexivity.
+  - intros r. rewrite L4, L2, !lookup_canon, R1. simpl.
+    destruct (lookup r (rperms s)) as [rp|] eqn:E.
+    + destruct (inv_roles s I r rp E) as [W [_ Hi]]. destruct (lookup r (rinfo s)); [|congruence]. cbn [option_map].
+      rewrite imp_perms_wf by assumption. reflexivity.
+    + destruct (lookup r (rinfo s)) as [sid|] eqn:Ei; [|reflexivity].
+      exfalso. apply (inv_info s I r sid Ei). assumption.
+Qed.
+
+Theorem import_inv : forall b s, inv s -> inv (export_import b s).
+Proof. intros b s I. apply (import_facts b s I). Qed.
+
+(* with role blacklists re-imported, an export / import reproduces who holds what *)
+Theorem import_preserves_holdings : forall s a p, inv s -> check_allowed (export_import true s) a p = check_allowed s a p.
+Proof.
+  intros s a p I. destruct (import_facts true s I) as [_ [La Lr]]. unfold check_allowed. rewrite La.
+  destruct (lookup a (actors s)) as [act|]; [|reflexivity].
+  replace (writes (export_import true s) act) with (writes s act); [reflexivity|].
+  unfold writes, found_role_perms.
+  assert (E : forall l, flat_map (fun r => match lookup r (rperms s) with Some rp => [rp] | None => [] end) l =
+                        flat_map (fun r => match lookup r (rperms (export_import true s)) with Some rp => [rp] | None => [] end) l).
+  { intros l. apply flat_map_ext. intros r. rewrite Lr. destruct (lookup r (rperms s)); reflexivity. }
+  rewrite !E. reflexivity.
+Qed.
+
+(* ------------------------------------------------------------------ address rotation, repaired variant *)
+Lemma inv_actor_delete : forall s a act, inv s -> lookup a (actors s) = Some act ->
+  inv (mkState (del a (actors s)) (rperms s) (rinfo s) (rsid s) (next_role s)
+               (pdel_all (keys_for a (wl (a_perms act))) (idx_pa s)) (pdel_all (keys_for a (a_roles act)) (idx_ra s)) (idx_pr s)).
+Proof.
+  intros s a act I E. constructor; sproj.
+  - intros a0 act0. rewrite lookup_del. destruct (a =? a0); [discriminate|]. apply (inv_actors s I).
+  - apply (inv_roles s I).
+  - apply (inv_info s I).
+  - apply (inv_next s I).
+  - intros p a0. rewrite pmem_pdel_all, pmem_keys_for, lookup_del, (inv_pa s I). destruct (Z.eqb_spec a a0).
+    + subst a0. rewrite E, Z.eqb_refl. simpl. destruct (mem p (wl (a_perms act))); reflexivity.
+    + rewrite (Z.eqb_sym a0 a). destruct (Z.eqb_spec a a0); [congruence|]. simpl. apply andb_true_r.
+  - intros r a0. rewrite pmem_pdel_all, pmem_keys_for, lookup_del, (inv_ra s I). destruct (Z.eqb_spec a a0).
+    + subst a0. rewrite E, Z.eqb_refl. simpl. destruct (mem r (a_roles act)); reflexivity.
+    + rewrite (Z.eqb_sym a0 a). destruct (Z.eqb_spec a a0); [congruence|]. simpl. apply andb_true_r.
+  - apply (inv_pr s I).
+Qed.
+
+Lemma rotate_repaired_inv : forall s a b, inv s -> a <> b -> lookup b (actors s) = None -> inv (rotate_repaired s a b).
+Proof.
+  intros s a b I Hab Hb. unfold rotate_repaired. destruct (lookup a (actors s)) as [act|] eqn:E; [|assumption].
+  unfold with_actors, with_idx_pa, with_idx_ra; sproj.
+  change (rotate_install ?st b act) with (import_actor st (b, act)).
+  destruct (inv_actors s I a act E) as [N1 N2].
+  apply import_actor_inv; [apply inv_actor_delete; assumption| |assumption|assumption].
+  sproj. rewrite lookup_del. destruct (Z.eqb_spec a b); [congruence|assumption].
+Qed.
+
+(* after a repaired rotation the old address holds nothing, the new one holds what the old one held *)
+Theorem rotation_repaired_old_address : forall s a b p, a <> b -> lookup a (actors s) <> None ->
+  check_allowed (rotate_repaired s a b) a p = false.
+Proof.
+  intros s a b p Hab Ha. unfold rotate_repaired. destruct (lookup a (actors s)) as [act|] eqn:E; [|congruence].
+  unfold check_allowed, rotate_install, save_actor, with_idx_pa, with_idx_ra, with_actors; sproj.
+  rewrite lookup_upd. destruct (Z.eqb_spec b a); [congruence|]. rewrite lookup_del, Z.eqb_refl. reflexivity.
+Qed.
+Theorem rotation_repaired_new_address : forall s a b p,
+  check_allowed (rotate_repaired s a b) b p =
+  match lookup a (actors s) with Some _ => check_allowed s a p | None => check_allowed s b p end.
+Proof.
+  intros s a b p. unfold rotate_repaired. destruct (lookup a (actors s)) as [act|] eqn:E; [|reflexivity].
+  unfold check_allowed, rotate_install, save_actor, with_idx_pa, with_idx_ra, with_actors; sproj.
+  rewrite lookup_upd, Z.eqb_refl, E. reflexivity.
+Qed.
+
+(* ------------------------------------------------------------------ histories, for every variant of the tree *)
+Section WithCfg.
+Variable c : cfg.
+
+(* the guard excludes the operations whose index maintenance is refuted for the variant at hand:
+   a councilor claim that newly whitelists (unless claims go through AddWhitelistPermission),
+   a rotation of an address with an actor record (unless the rotation is repaired, the target
+   differs and has no record of its own) *)
+Definition safe (s : state) (o : op) : Prop :=
+  match o with
+  | OClaimCouncilor a => claim_indexed c = true \/ claim_whitelists s a = false
+  | ORotate a b => lookup a (actors s) = None \/ (rotate_fixed c = true /\ a <> b /\ lookup b (actors s) = None)
+  | _ => True
+  end.
+
+Lemma step_inv : forall s o s', inv s -> safe s o -> step c s o = Ok s' -> inv s'.
 Proof.
   intros s o s' I S H. destruct o; cbn [step] in H.
   - apply gated_Ok in H; eapply k_add_wl_acc_inv; eauto.
@@ -433,38 +871,63 @@ Proof.
     eapply (fold_out_inv _ inv); [|exact I1|exact H]. intros st b0 st' HI HK; cbv beta in HK; eapply k_bl_role_inv; eauto.
   - destruct (role_by_sid s sid); [discriminate|]. inversion H; subst s'; clear H.
     assert (H0 : lookup 0 (rperms s) = None).
-    { destruct (lookup 0 (rperms s)) eqn:E; [|reflexivity]. destruct (inv_roles s I _ _ E) as [_ HH]. lia. }
-    constructor; cbn [actors rperms rinfo rsid next_role idx_pa idx_ra idx_pr].
+    { destruct (lookup 0 (rperms s)) eqn:E; [|reflexivity]. destruct (inv_roles s I _ _ E) as [_ [HH _]]. lia. }
+    constructor; sproj.
     + apply (inv_actors s I).
-    + intros r rp. rewrite lookup_del. destruct (0 =? r); [discriminate|]. apply (inv_roles s I).
+    + intros r rp. rewrite !lookup_del. destruct (0 =? r); [discriminate|]. apply (inv_roles s I).
+    + intros r sd. rewrite !lookup_del. destruct (0 =? r); [discriminate|]. apply (inv_info s I).
     + apply (inv_next s I).
     + apply (inv_pa s I).
     + apply (inv_ra s I).
     + intros p r. rewrite lookup_del, (inv_pr s I). destruct (Z.eqb_spec 0 r); [subst r; rewrite H0|]; reflexivity.
   - apply gated_Ok in H; eapply k_assign_inv; eauto.
   - apply gated_Ok in H; eapply k_unassign_inv; eauto.
-  - simpl in S. unfold claim_whitelists in S. unfold gated in H.
-    destruct (check_allowed s a PermClaimCouncilor); [|discriminate]. simpl in S.
-    destruct (lookup a (actors s)) as [act|]; [|discriminate].
-    destruct (add_wl PermCreatePollProposal (a_perms act)); [discriminate|]. inversion H; subst; assumption.
-  - unfold gated in H. destruct (check_allowed s x (gate_perm_coded k)); inversion H; subst; assumption.
-  - inversion H; subst. exact S.
-  - simpl in S. inversion H; subst. unfold rotate. rewrite S. assumption.
+  - simpl in S. unfold gated in H. destruct (check_allowed s a PermClaimCouncilor) eqn:Ec; [|discriminate].
+    destruct (lookup a (actors s)) as [act|] eqn:Ea; [|discriminate].
+    destruct (claim_indexed c).
+    + destruct (k_add_wl_acc s a PermCreatePollProposal) eqn:Ek; inversion H; subst; try assumption.
+      eapply k_add_wl_acc_inv; eauto.
+    + destruct S as [S|S]; [discriminate|]. unfold claim_whitelists in S. rewrite Ec, Ea in S. simpl in S.
+      destruct (add_wl PermCreatePollProposal (a_perms act)); [discriminate|]. inversion H; subst; assumption.
+  - unfold gated in H. destruct (check_allowed s x (gate_perm_coded c k)); inversion H; subst; assumption.
+  - inversion H; subst. apply import_inv; assumption.
+  - simpl in S. inversion H; subst. unfold rotate. destruct S as [S|[Hf [Hab Hb]]].
+    + unfold rotate_repaired, rotate_buggy. rewrite S. destruct (rotate_fixed c); assumption.
+    + rewrite Hf. apply rotate_repaired_inv; assumption.
 Qed.
 
 Fixpoint safe_run (s : state) (ops : list op) : Prop :=
-  match ops with [] => True | o :: r => safe s o /\ safe_run (step_total s o) r end.
+  match ops with [] => True | o :: r => safe s o /\ safe_run (step_total c s o) r end.
 
-Lemma step_total_inv : forall s o, inv s -> safe s o -> inv (step_total s o).
+Lemma step_total_inv : forall s o, inv s -> safe s o -> inv (step_total c s o).
 Proof.
-  intros s o I S. unfold step_total. destruct (step s o) eqn:E; try assumption. eapply step_inv; eauto.
+  intros s o I S. unfold step_total. destruct (step c s o) eqn:E; try assumption. eapply step_inv; eauto.
 Qed.
 
-Theorem indexes_refine_partial : forall ops s, inv s -> safe_run s ops -> inv (run s ops).
+Theorem indexes_refine_guarded : forall ops s, inv s -> safe_run s ops -> inv (run c s ops).
 Proof.
   induction ops as [|o r IH]; intros s I S; simpl; [assumption|].
   destruct S as [S1 S2]. apply IH; [apply step_total_inv; assumption|assumption].
 Qed.
+
+(* with the councilor claim and the rotation repaired, the only remaining condition is that a
+   rotation does not overwrite another actor's record *)
+Fixpoint fresh_targets (s : state) (ops : list op) : Prop :=
+  match ops with
+  | [] => True
+  | o :: r => match o with ORotate a b => lookup a (actors s) = None \/ (a <> b /\ lookup b (actors s) = None) | _ => True end
+              /\ fresh_targets (step_total c s o) r
+  end.
+Theorem indexes_refine_repaired : claim_indexed c = true -> rotate_fixed c = true ->
+  forall ops s, inv s -> fresh_targets s ops -> inv (run c s ops).
+Proof.
+  intros Hc Hr ops s I F. apply indexes_refine_guarded; [assumption|]. revert s I F.
+  induction ops as [|o r IH]; intros s I F; [exact Logic.I|]. destruct F as [F1 F2].
+  assert (S1 : safe s o).
+  { destruct o; simpl; auto. destruct F1 as [F1|F1]; [left; assumption|right; split; assumption]. }
+  split; [exact S1|]. apply IH; [|assumption]. apply step_total_inv; assumption.
+Qed.
+End WithCfg.
 
 (* ------------------------------------------------------------------ voter enumeration *)
 Lemma In_index_filter : forall k x (l : list (Z * Z)),
@@ -540,14 +1003,14 @@ Proof.
 Qed.
 
 (* ------------------------------------------------------------------ every gated action is enforced *)
-Definition msg_gate_holds (s : state) (o : op) : Prop :=
+Definition msg_gate_holds (c : cfg) (s : state) (o : op) : Prop :=
   match o with
   | OWlAcc (ByMsg x) _ p | OBlAcc (ByMsg x) _ p | ORmWlAcc (ByMsg x) _ p | ORmBlAcc (ByMsg x) _ p =>
       holds s x PermSetPermissions \/ (p = PermClaimValidator /\ holds s x PermSetClaimValidatorPermission)
   | OWlRole (ByMsg x) _ _ | OBlRole (ByMsg x) _ _ | ORmWlRole (ByMsg x) _ _ | ORmBlRole (ByMsg x) _ _
   | OCreateRole (ByMsg x) _ _ _ | OAssign (ByMsg x) _ _ | OUnassign (ByMsg x) _ _ => holds s x PermUpsertRole
   | OClaimCouncilor a => holds s a PermClaimCouncilor
-  | OGate k x => holds s x (gate_perm_coded k)
+  | OGate k x => holds s x (gate_perm_coded c k)
   | _ => True
   end.
 
@@ -561,33 +1024,56 @@ Proof.
   - apply andb_true_iff in H. destruct H as [H1 H2]. right; split; [apply Z.eqb_eq; assumption|apply check_allowed_iff; assumption].
 Qed.
 
-Theorem gated_only_with_permission : forall s o s', step s o = Ok s' -> msg_gate_holds s o.
+Theorem gated_only_with_permission : forall c s o s', step c s o = Ok s' -> msg_gate_holds c s o.
 Proof.
-  intros s o s' H. destruct o; cbn [step] in H; try exact I; try (destruct v; [|exact I]);
+  intros c s o s' H. destruct o; cbn [step] in H; try exact I; try (destruct v; [|exact I]);
     apply gated_true in H; cbn [via_gate msg_gate_holds] in *;
     try (apply acc_gate_holds; assumption); apply check_allowed_iff; assumption.
 Qed.
 
-(* ------------------------------------------------------------------ refutations (witnesses replayed on the real code by harness/cmd/c07) *)
+(* the permission each non-editing gated message is MEANT to require *)
+Definition gate_perm_intended (k : gkind) : Z :=
+  match k with GPoll => PermCreatePollProposal | GSubmit => PermCreateSetPoorNetworkMessagesProposal
+             | GVote => PermVoteSetPoorNetworkMessagesProposal | GDapp => PermCreateDappProposalWithoutBond end.
+(* full strength whenever layer2's wrapper hands the requested permission on *)
+Theorem gate_intended : forall c, dapp_perm c = PermCreateDappProposalWithoutBond ->
+  forall s k x s', step c s (OGate k x) = Ok s' -> holds s x (gate_perm_intended k).
+Proof.
+  intros c Hd s k x s' H. apply gated_only_with_permission in H. simpl in H. destruct k; simpl in *; try exact H. rewrite <- Hd. exact H.
+Qed.
+(* the unrepaired wrapper (always PermHandleBasketEmergency) *)
+Theorem gate_intended_refuted : forall c, dapp_perm c = PermHandleBasketEmergency -> exists ops x s',
+  step c (run c empty_state ops) (OGate GDapp x) = Ok s' /\ ~ holds (run c empty_state ops) x (gate_perm_intended GDapp).
+Proof.
+  intros [d ci ib rf] Hd; simpl in Hd; subst d.
+  exists [OWlAcc ByProp 1 PermHandleBasketEmergency], 1. eexists. split; [vm_compute; reflexivity|].
+  intros H. apply check_allowed_iff in H. vm_compute in H. discriminate.
+Qed.
+
+(* ------------------------------------------------------------------ refutations for the unrepaired variants
+   (witnesses replayed on the real code by harness/cmd/c07 while the tree has the variant) *)
 Definition claim_witness : list op := [OWlAcc ByProp 0 PermClaimCouncilor; OClaimCouncilor 0].
 
-(* full-strength statement "every reachable state keeps the indexes equal to the records": refuted *)
-Theorem indexes_refine_refuted : exists ops, ~ inv (run empty_state ops).
+(* "every reachable state keeps the indexes equal to the records": refuted while ClaimCouncilor
+   whitelists without the index *)
+Theorem indexes_refine_refuted : forall c, claim_indexed c = false -> exists ops, ~ inv (run c empty_state ops).
 Proof.
+  intros [d ci ib rf] Hc; simpl in Hc; subst ci.
   exists claim_witness. intros I. pose proof (inv_pa _ I PermCreatePollProposal 0) as H. vm_compute in H. discriminate.
 Qed.
-Theorem voters_exact_refuted : exists ops a p,
-  whitelisted (run empty_state ops) a p /\ voters (run empty_state ops) p = Ok [].
+Theorem voters_exact_refuted : forall c, claim_indexed c = false -> exists ops a p,
+  whitelisted (run c empty_state ops) a p /\ voters (run c empty_state ops) p = Ok [].
 Proof.
+  intros [d ci ib rf] Hc; simpl in Hc; subst ci.
   exists claim_witness, 0, PermCreatePollProposal. split; [|vm_compute; reflexivity].
   left. eexists; split; [vm_compute; reflexivity|]. simpl; auto.
 Qed.
 (* the guard excludes exactly the claims that break the index *)
-Theorem claim_breaks_index : forall s a, inv s -> claim_whitelists s a = true ->
-  exists s', step s (OClaimCouncilor a) = Ok s' /\ ~ inv s'.
+Theorem claim_breaks_index : forall c s a, claim_indexed c = false -> inv s -> claim_whitelists s a = true ->
+  exists s', step c s (OClaimCouncilor a) = Ok s' /\ ~ inv s'.
 Proof.
-  intros s a I H. unfold claim_whitelists in H. apply andb_true_iff in H. destruct H as [Hc Hw].
-  cbn [step]. rewrite Hc. cbn [gated].
+  intros c s a Hci I H. unfold claim_whitelists in H. apply andb_true_iff in H. destruct H as [Hc Hw].
+  cbn [step]. rewrite Hc, Hci. cbn [gated].
   destruct (lookup a (actors s)) as [act|] eqn:Ea; [|discriminate].
   destruct (add_wl PermCreatePollProposal (a_perms act)) as [ps|] eqn:Eadd; [|discriminate].
   eexists; split; [reflexivity|]. intros I'.
@@ -600,51 +1086,38 @@ Qed.
 
 Definition rotate_witness : list op :=
   [OCreateRole ByProp 1 [PermVoteSetPoorNetworkMessagesProposal] []; OAssign ByProp 1 1; OWlAcc ByProp 1 PermCreatePollProposal; ORotate 1 4].
-(* "after a rotation the old address holds nothing": refuted (old actor re-saved with its whitelist) *)
-Theorem rotation_clears_old_address_refuted : exists ops a b p,
-  last ops OExportImport = ORotate a b /\ a <> b /\ check_allowed (run empty_state ops) a p = true /\ ~ inv (run empty_state ops).
+(* "after a rotation the old address holds nothing": refuted for the unrepaired rotation *)
+Theorem rotation_clears_old_address_refuted : forall c, rotate_fixed c = false -> exists ops a b p,
+  last ops OExportImport = ORotate a b /\ a <> b /\ check_allowed (run c empty_state ops) a p = true /\ ~ inv (run c empty_state ops).
 Proof.
+  intros [d ci ib rf] Hc; simpl in Hc; subst rf.
   exists rotate_witness, 1, 4, PermCreatePollProposal. split; [reflexivity|]. split; [lia|]. split; [vm_compute; reflexivity|].
   intros I. pose proof (inv_pa _ I PermCreatePollProposal 1) as H. vm_compute in H. discriminate.
 Qed.
-Lemma fold_idx_pa_actors : forall (f : state -> Z -> list (Z * Z)) l st,
-  actors (fold_left (fun st p => with_idx_pa st (f st p)) l st) = actors st.
-Proof. intros f l; induction l as [|p l IH]; intros st; simpl; [reflexivity|]. rewrite IH. reflexivity. Qed.
 Theorem rotation_clears_old_address_partial : forall s a b act p,
-  lookup a (actors s) = Some act -> a_roles act = [] -> a <> b -> check_allowed (rotate s a b) a p = false.
+  lookup a (actors s) = Some act -> a_roles act = [] -> a <> b -> check_allowed (rotate_buggy s a b) a p = false.
 Proof.
-  intros s a b act p E Hr Hab. unfold rotate. rewrite E, Hr. cbn [List.length rotate_unassign fold_left].
-  unfold check_allowed.
-  rewrite (fold_idx_pa_actors (fun st p0 => padd (p0, b) (idx_pa st))).
-  unfold save_actor, with_actors; cbn [actors]. rewrite lookup_upd.
-  destruct (Z.eqb_spec b a); [congruence|].
-  rewrite (fold_idx_pa_actors (fun st p0 => pdel (p0, a) (idx_pa st))). cbn [actors].
-  rewrite lookup_del, Z.eqb_refl. reflexivity.
+  intros s a b act p E Hr Hab. unfold rotate_buggy. rewrite E, Hr. cbn [List.length rotate_unassign].
+  unfold check_allowed, rotate_install, save_actor, with_idx_pa, with_idx_ra, with_actors; sproj.
+  rewrite lookup_upd. destruct (Z.eqb_spec b a); [congruence|]. rewrite lookup_del, Z.eqb_refl. reflexivity.
+Qed.
+(* even the repaired rotation overwrites the record of a target that has one: its index entries stay *)
+Definition overwrite_witness : list op := [OWlAcc ByProp 1 PermCreatePollProposal; OWlAcc ByProp 4 PermClaimCouncilor; ORotate 1 4].
+Theorem rotation_overwrite_refuted : forall c, exists ops, ~ inv (run c empty_state ops).
+Proof.
+  intros [d ci ib rf]. exists overwrite_witness. intros I. pose proof (inv_pa _ I PermClaimCouncilor 4) as H.
+  destruct rf; vm_compute in H; discriminate.
 Qed.
 
 Definition import_witness : list op :=
   [OCreateRole ByProp 1 [PermVoteSetPoorNetworkMessagesProposal] []; OCreateRole ByProp 2 [] [PermVoteSetPoorNetworkMessagesProposal];
    OAssign ByProp 0 1; OAssign ByProp 0 2].
-(* "an export / import reproduces who holds what": refuted (role blacklists are not re-imported) *)
-Theorem import_preserves_holdings_refuted : exists ops a p,
-  let s := run empty_state ops in inv s /\ check_allowed s a p = false /\ check_allowed (export_import s) a p = true.
+(* "an export / import reproduces who holds what": refuted while role blacklists are not re-imported *)
+Theorem import_preserves_holdings_refuted : exists s a p,
+  inv s /\ check_allowed s a p = false /\ check_allowed (export_import false s) a p = true.
 Proof.
-  exists import_witness, 0, PermVoteSetPoorNetworkMessagesProposal. cbv zeta. split; [|split; vm_compute; reflexivity].
-  apply indexes_refine_partial; [apply inv_empty|]. simpl. tauto.
-Qed.
-
-(* the permission each non-editing gated message is MEANT to require *)
-Definition gate_perm_intended (k : gkind) : Z :=
-  match k with GDapp => PermCreateDappProposalWithoutBond | _ => gate_perm_coded k end.
-Theorem gate_intended_partial : forall s k x s', k <> GDapp -> step s (OGate k x) = Ok s' -> holds s x (gate_perm_intended k).
-Proof.
-  intros s k x s' Hk H. apply gated_only_with_permission in H. simpl in H. destruct k; try exact H. congruence.
-Qed.
-Theorem gate_intended_refuted : exists ops x s',
-  step (run empty_state ops) (OGate GDapp x) = Ok s' /\ ~ holds (run empty_state ops) x (gate_perm_intended GDapp).
-Proof.
-  exists [OWlAcc ByProp 1 PermHandleBasketEmergency], 1. eexists. split; [vm_compute; reflexivity|].
-  intros H. apply check_allowed_iff in H. vm_compute in H. discriminate.
+  exists (run cfg_pinned empty_state import_witness), 0, PermVoteSetPoorNetworkMessagesProposal. split; [|split; vm_compute; reflexivity].
+  apply indexes_refine_guarded; [apply inv_empty|]. simpl. tauto.
 Qed.
 
 (* non-vacuity: a reachable state with roles, whitelists, blacklists satisfying the invariant *)
@@ -708,14 +1181,85 @@ Proof.
   destruct (check_allowed s a p); reflexivity.
 Qed.
 
-(* gate clause: whatever the model accepts passes the checker's gate rule, except the dapp waiver *)
-Theorem chk_sound_gate : forall ua up s o s', step s o = Ok s' -> (forall x, o <> OGate GDapp x) ->
+
+(* gate clause: whatever the model accepts passes the checker's gate rule (the dapp waiver when the
+   wrapper hands the requested permission on) *)
+Theorem chk_sound_gate : forall c ua up s o s', step c s o = Ok s' ->
+  (dapp_perm c = PermCreateDappProposalWithoutBond \/ forall x, o <> OGate GDapp x) ->
   gate_spec (obs_of ua up s) o = true.
 Proof.
-  intros ua up s o s' H Hd. destruct o; cbn [step] in H; try reflexivity; try (destruct v; [|reflexivity]);
-    try (destruct k); try (exfalso; eapply Hd; reflexivity);
-    apply gated_true in H; cbn [via_gate gate_spec via_spec acc_gate_spec] in *; unfold acc_gate_spec;
-    rewrite ?spec_holds_model; exact H.
+  intros c ua up s o s' H Hd. destruct o; cbn [step] in H; try reflexivity; try (destruct v; [|reflexivity]);
+    try (destruct k); apply gated_true in H; cbn [via_gate gate_spec via_spec acc_gate_spec gate_perm_coded] in *; unfold acc_gate_spec;
+    rewrite ?spec_holds_model; try exact H.
+  destruct Hd as [Hd|Hd]; [rewrite <- Hd; exact H|exfalso; eapply Hd; reflexivity].
+Qed.
+
+(* index clauses: under the invariant the checker finds the dumped indexes equal to the sets it
+   recomputes from the dumped records *)
+Lemma In_pmem : forall x l, In x l -> pmem x l = true.
+Proof. intros x l H. unfold pmem. apply existsb_exists. exists x; split; [assumption|apply pair_eqb_eq; reflexivity]. Qed.
+Lemma pmem_In : forall x l, pmem x l = true -> In x l.
+Proof. intros x l H. unfold pmem in H. apply existsb_exists in H. destruct H as [y [Hy E]]. apply pair_eqb_eq in E. subst; assumption. Qed.
+Lemma filter_nil : forall {A} (f : A -> bool) l, (forall x, In x l -> f x = false) -> filter f l = [].
+Proof. intros A f l; induction l as [|x l IH]; intros H; simpl; [reflexivity|]. rewrite H by (left; reflexivity). apply IH; intros y Hy; apply H; right; assumption. Qed.
+Lemma pdiff_nil : forall l m, (forall x, In x l -> pmem x m = true) -> pdiff l m = [].
+Proof. intros l m H. unfold pdiff. apply filter_nil. intros x Hx. rewrite (H x Hx). reflexivity. Qed.
+
+Lemma index_sound : forall {V} (m : list (Z * V)) (sel : V -> list Z) (idx : list (Z * Z)),
+  (forall x k, pmem (x, k) idx = match lookup k m with Some v => mem x (sel v) | None => false end) ->
+  pdiff (flat_map (fun e => map (fun x => (x, fst e)) (sel (snd e))) (canon [] m)) idx = [] /\
+  pdiff idx (flat_map (fun e => map (fun x => (x, fst e)) (sel (snd e))) (canon [] m)) = [].
+Proof.
+  intros V m sel idx H. split; apply pdiff_nil.
+  - intros [x k] Hin. apply in_flat_map in Hin. destruct Hin as [[k' v] [Hc Hx]]. simpl in Hx.
+    apply in_map_iff in Hx. destruct Hx as [x' [E Hx]]. inversion E; subst x' k'; clear E.
+    apply canon_In_lookup in Hc. destruct Hc as [Hl _]. rewrite H, Hl. apply mem_In; assumption.
+  - intros [x k] Hin. apply In_pmem in Hin. rewrite H in Hin.
+    destruct (lookup k m) as [v|] eqn:El; [|discriminate].
+    apply In_pmem. apply in_flat_map. exists (k, v). split; [apply lookup_In_canon; [assumption|reflexivity]|].
+    simpl. apply in_map_iff. exists x; split; [reflexivity|apply mem_In; assumption].
+Qed.
+
+Theorem chk_sound_index : forall ua up s, inv s -> index_disc (obs_of ua up s) = [].
+Proof.
+  intros ua up s I. unfold index_disc, spec_ipa, spec_ira, spec_ipr; cbn [o_actors o_roles o_ipa o_ira o_ipr obs_of].
+  destruct (index_sound (actors s) (fun act => wl (a_perms act)) (idx_pa s) (inv_pa s I)) as [A1 A2].
+  destruct (index_sound (actors s) a_roles (idx_ra s) (inv_ra s I)) as [B1 B2].
+  destruct (index_sound (rperms s) wl (idx_pr s) (inv_pr s I)) as [C1 C2].
+  cbv beta in A1, A2. rewrite A1, A2, B1, B2, C1, C2. reflexivity.
+Qed.
+
+(* voter clauses *)
+Lemma spec_whitelisted_model : forall ua up s a p, spec_whitelisted (obs_of ua up s) a p = true <-> whitelisted s a p.
+Proof.
+  intros ua up s a p. unfold spec_whitelisted, whitelisted, wl_direct, has_role, wl_role; cbn [o_actors obs_of].
+  destruct (lookup a (actors s)) as [act|] eqn:E.
+  - rewrite orb_true_iff, via_role_found, !mem_In, In_found_role_perms. split.
+    + intros [H|[r [rp [Hr [Hl Hp]]]]]; [left; exists act; auto|right; exists r; split; [exists act; auto|exists rp; auto]].
+    + intros [[act0 [E0 H]]|[r [[act0 [E0 Hr]] [rp [Hl Hp]]]]]; inversion E0; subst act0; [left; assumption|right; exists r, rp; auto].
+  - split; [discriminate|]. intros [[act0 [E0 _]]|[r [[act0 [E0 _]] _]]]; discriminate.
+Qed.
+
+Theorem chk_sound_voters : forall ua up s, inv s -> voters_disc (obs_of ua up s) = [].
+Proof.
+  intros ua up s I. unfold voters_disc; cbn [o_voters obs_of]. apply flat_map_nil. intros [p v] Hin.
+  apply in_map_iff in Hin. destruct Hin as [p' [E _]]. inversion E; subst p' v; clear E. cbn [fst snd].
+  destruct (voters_exact s p I) as [l [Hv [_ Hl]]]. rewrite Hv.
+  rewrite (filter_nil (fun a => negb (mem a l))), (filter_nil (fun a => negb (mem a (spec_voters (obs_of ua up s) p)))); [reflexivity| |].
+  - intros a Ha. apply Hl in Ha. apply negb_false_iff, mem_In. unfold spec_voters. apply filter_In. split.
+    + cbn [o_actors obs_of]. assert (exists act, lookup a (actors s) = Some act) as [act E].
+      { destruct Ha as [[act [E _]]|[r [[act [E _]] _]]]; exists act; assumption. }
+      apply in_map_iff. exists (a, act). split; [reflexivity|apply lookup_In_canon; [assumption|reflexivity]].
+    + apply spec_whitelisted_model; assumption.
+  - intros a Ha. unfold spec_voters in Ha. apply filter_In in Ha. destruct Ha as [_ Ha].
+    apply spec_whitelisted_model in Ha. apply negb_false_iff, mem_In, Hl. assumption.
+Qed.
+
+(* all state clauses together: the checker accepts every state that satisfies the invariant, hence
+   (indexes_refine_guarded) every state of a guarded model run *)
+Theorem chk_sound_state : forall ua up s who, inv s -> state_clauses up who None (obs_of ua up s) = [].
+Proof.
+  intros ua up s who I. unfold state_clauses. rewrite chk_sound_allow, chk_sound_index, chk_sound_voters by assumption. reflexivity.
 Qed.
 
 (* ------------------------------------------------------------------ inclusion of string tables (for Gen/Gates.v) *)
@@ -729,10 +1273,11 @@ Lemma incl_strb_sound : forall l m, incl_strb l m = true -> incl l m.
 Proof. unfold incl_strb, incl; intros l m H x Hx. rewrite forallb_forall in H. apply str_in_In, H, Hx. Qed.
 
 Lemma example_state_inv :
-  let s := run empty_state (removelast example_ops) in
+  let s := run cfg_pinned empty_state (removelast example_ops) in
   inv s /\ check_allowed s 1 1 = true /\ check_allowed s 1 17 = false /\ check_allowed s 2 17 = true /\ check_allowed s 2 66 = false
-  /\ voters s 17 = Ok [2; 1].
+  /\ voters s 17 = Ok [2; 1] /\ inv (run cfg_repaired empty_state example_ops).
 Proof.
-  cbv zeta. split; [apply indexes_refine_partial; [apply inv_empty|simpl; tauto]|].
-  repeat split; vm_compute; reflexivity.
+  cbv zeta. split; [apply indexes_refine_guarded; [apply inv_empty|simpl; tauto]|].
+  do 5 (split; [vm_compute; reflexivity|]).
+  apply indexes_refine_guarded; [apply inv_empty|simpl; tauto].
 Qed.
